@@ -23,6 +23,14 @@ MANUAL = {
     ('rgb', 'logical'): {'hue', 'saturation', 'brightness'},
     ('logical', 'rgb'): {'red', 'green', 'blue'},
 }
+# register contents on which every documented rewrite is visible (Lean: witnessRegs)
+WITNESS = {
+    'raw': {'hue': 12000, 'saturation': 30000, 'brightness': 20000, 'kelvin': 2700, 'red': 10,
+            'green': 20, 'blue': 30, 'duration': 2500, 'time': 1500},
+    'logical': {'hue': 120, 'saturation': 50, 'brightness': 25, 'kelvin': 2700, 'red': 10,
+                'green': 20, 'blue': 30, 'duration': 2.5, 'time': 1.5},
+}
+WITNESS['rgb'] = WITNESS['logical']
 PRINT_ALL = ' '.join('print ' + r for r in REGS)
 PRINT_NO_TIME = ' '.join('print ' + r for r in REGS if r != 'time')
 
@@ -172,6 +180,15 @@ class C14:
                         '`units {}` in {} units changed {} from {!r} to {!r}'.format(
                             b, a, r, before[r], after[r]),
                         dict(case.describe(), step=step, register=r))
+        # … and does rewrite what it lists (checked on register contents chosen so that every
+        # re-expression is visible)
+        if case.pattern is None and len(trans) == 1 and case.regs is WITNESS.get(case.mode):
+            a, b = trans[0]
+            for r in MANUAL.get((a, b), ()):
+                if states[0][r] == states[1][r]:
+                    chk.violation('documented-rewrite-missing:{}->{}:{}'.format(a, b, r),
+                                  '`units {}` in {} units left {} at {!r}'.format(b, a, r, states[0][r]),
+                                  dict(case.describe(), register=r))
         # the two executions: colour, duration, pending delay
         e0, e1 = base['event'], switched['event']
         if e0 is None or e1 is None:
@@ -335,12 +352,15 @@ def main():
     if '--replay' in sys.argv:
         return replay(sys.argv[sys.argv.index('--replay') + 1])
     chk.lean_phase(sections={'Units'})
+    # a proof or the tie no longer checks: search with the thorough-sized generation (DESIGN §5)
+    chk.big = chk.thorough or bool(chk.broken)
+    chk.coverage['escalated_search'] = bool(chk.broken) and not chk.thorough
     t = C14(chk)
     rng = chk.rng
-    quick = not chk.thorough
+    quick = not chk.big
     cases = []
     # ---- single transitions (all nine ordered pairs, incl. switches to the mode in force)
-    per = 450 if quick else 6000
+    per = 1500 if quick else 6000
     for a in uc.MODES:
         for b in uc.MODES:
             for i in range(per if a != b else per // 6):
@@ -362,13 +382,17 @@ def main():
             ({'hue': 1, 'saturation': 2, 'brightness': 3, 'kelvin': 2701.5, 'time': 1,
               'duration': 1, 'red': 10, 'green': 20, 'blue': 30}, 'rgb', 'logical')]:
         cases.append(SCase(a, regs, [b]))
+    for a in uc.MODES:
+        for b in uc.MODES:
+            if a != b:
+                cases.append(SCase(a, WITNESS[a], [b]))
     t.stats['single_transition_cases'] = len(cases)
     # ---- chains of two to four switches: every chain, several register sets each
     n_chain = 0
     for length in (2, 3, 4):
         for chain in itertools.product(uc.MODES, repeat=length):
             for a in uc.MODES:
-                reps = (2 if length < 4 else 1) if quick else 12
+                reps = (6 if length < 4 else 3) if quick else 12
                 for i in range(reps):
                     cases.append(SCase(a, random_regs(rng, a, edge=(i % 2 == 1)), chain))
                     n_chain += 1
